@@ -71,43 +71,14 @@ func runC09(p *Program, e *Engine, r *Result, tier string) {
 		return
 	}
 	entryPath := strings.TrimSuffix(watchLit.A.Subj, "")
-	wdF, pathF := tf.watchFields()
+	_, pathF := tf.watchFields()
 	ops := collectTableOps(a, tf, w)
 	bit := func(name string) Lit {
 		k, _ := unixConst(a, name)
 		return Lit{A: &Atom{Kind: AkBit, Subj: maskSubj, Bits: k}}
 	}
 	not := func(l Lit) Lit { l.Neg = !l.Neg; return l }
-	// (1)
-	for _, g := range []string{"IN_IGNORED", "IN_UNMOUNT", "IN_DELETE_SELF"} {
-		T := entry.andLit(*watchLit).andLit(bit(g))
-		for _, tbl := range []struct {
-			name string
-			key  string
-		}{{"wd", stripIDs(entryPath) + "." + wdF}, {"path", stripIDs(entryPath) + "." + pathF}} {
-			var eff DNF
-			where := ""
-			for _, op := range ops {
-				if op.Kind == "delete" && op.Key == tbl.key && inHandler(op.V, hctx) {
-					eff = eff.or(op.V.Cond)
-					where = a.P.instrPos(op.V.Instr)
-				}
-			}
-			ok, wit := false, "no delete of this watch's "+tbl.name+"-table entry in the handler"
-			if !eff.isFalse() {
-				h, ctr, err := implies(T, eff)
-				if err != nil {
-					a.R.fail("%v", err)
-				}
-				ok = h
-				wit = "delete at " + where + " is reached whenever the guard holds"
-				if !h {
-					wit = "the entry survives when " + stripIDs(ctr)
-				}
-			}
-			a.R.ob("C09.1", "cleanup("+g+","+tbl.name+"-table)", "a record with "+g+" for a known watch removes that watch's "+tbl.name+"-table entry before the handler returns", where, ok, wit)
-		}
-	}
+	c09Cleanup(a, tf, hctx, entry, *watchLit, entryPath, maskSubj, ops, "C09.1")
 	// (2) MOVE_SELF
 	rmAPI := ro.API["Remove"]
 	apiCallees := map[*ssa.Function]bool{}
@@ -206,6 +177,77 @@ func runC09(p *Program, e *Engine, r *Result, tier string) {
 			a.R.Obligations[i].Key = "C09.4|" + strings.TrimPrefix(a.R.Obligations[i].Key, "C12.1|")
 		}
 	}
+}
+
+// c09Cleanup: records with a kernel-says-gone flag remove both table entries of their watch.
+func c09Cleanup(a *An, tf *tableFacts, hctx *Ctx, entry DNF, watchLit Lit, entryPath, maskSubj string, ops []tableOp, rule string) {
+	wdF, pathF := tf.watchFields()
+	bit := func(name string) Lit {
+		k, _ := unixConst(a, name)
+		return Lit{A: &Atom{Kind: AkBit, Subj: maskSubj, Bits: k}}
+	}
+	for _, g := range []string{"IN_IGNORED", "IN_UNMOUNT", "IN_DELETE_SELF"} {
+		T := entry.andLit(watchLit).andLit(bit(g))
+		for _, tbl := range []struct {
+			name string
+			key  string
+		}{{"wd", stripIDs(entryPath) + "." + wdF}, {"path", stripIDs(entryPath) + "." + pathF}} {
+			var eff DNF
+			where := ""
+			for _, op := range ops {
+				if op.Kind == "delete" && op.Key == tbl.key && inHandler(op.V, hctx) {
+					eff = eff.or(op.V.Cond)
+					where = a.P.instrPos(op.V.Instr)
+				}
+			}
+			ok, wit := false, "no delete of this watch's "+tbl.name+"-table entry in the handler"
+			if !eff.isFalse() {
+				h, ctr, err := implies(T, eff)
+				if err != nil {
+					a.R.fail("%v", err)
+				}
+				ok = h
+				wit = "delete at " + where + " is reached whenever the guard holds"
+				if !h {
+					wit = "the entry survives when " + stripIDs(ctr)
+				}
+			}
+			a.R.ob(rule, "cleanup("+g+","+tbl.name+"-table)", "a record with "+g+" for a known watch removes that watch's "+tbl.name+"-table entry before the handler returns", where, ok, wit)
+		}
+	}
+}
+
+// handlerFrame gathers what the handler rules need: entry condition, the "watch known" literal, the mask subject.
+func handlerFrame(a *An, df *DecodeFacts, tf *tableFacts) (w *Walker, hv []*Visit, hctx *Ctx, entry DNF, watchLit *Lit, maskSubj string) {
+	w, hv, hctx = handlerVisits(a, df)
+	if hctx == nil {
+		a.R.fail("handler %s is not inlined", shortFn(df.Handler))
+		return
+	}
+	for _, v := range hv {
+		if v.Ctx == hctx {
+			entry = v.Cond
+			break
+		}
+	}
+	for _, v := range hv {
+		for _, c := range v.Cond {
+			for _, l := range c {
+				if l.A.Kind == AkNil && l.Neg && lookupInTable(l.A, []*types.Var{tf.wdTable}) && watchLit == nil {
+					ll := l
+					watchLit = &ll
+				}
+				if (l.A.Kind == AkBit) && strings.HasSuffix(l.A.Subj, ".Mask") && maskSubj == "" {
+					maskSubj = l.A.Subj
+				}
+			}
+		}
+	}
+	if watchLit == nil || maskSubj == "" {
+		a.R.fail("anchor unresolved: handler's nil test of the wd lookup / mask tests")
+		hctx = nil
+	}
+	return
 }
 
 func inHandler(v *Visit, hctx *Ctx) bool {
